@@ -92,7 +92,7 @@ def screen_check(pid, tier, seed, families, rules_note, need_paints=True, level=
                                  replay={"driver": "api", "monitor": "Trace_Screen", "rule": v["rule"], "expected_lines": ["".join(chr(c) if 32 <= c < 127 else "<%d>" % c for c in l) for l in v.get("exp", [])],
                                          "history": {"h": 1, "cfg": h["cfg"], "ops": prefix}}))
     # vacuity: the clauses must have been exercised
-    if ((need_paints and stats.get("paints", 0) == 0) or stats.get("recs", 0) == 0) and not all_fail:
+    if ((need_paints and stats.get("paints", 0) == 0) or stats.get("recs", 0) == 0) and not all_fail and not only:
         raise vlib.ToolError("vacuous run: no painted frame was validated")
     all_fail.sort(key=lambda x: x["n"])   # shortest witness first per class
     coverage = dict(states=states, transitions=trans, traces_validated_against_impl=nh, records_validated=nrec,
@@ -597,6 +597,11 @@ def c05(pid, tier, seed):
             ops.append(dict(new, target="pty"))
         elif kind == "pos":
             ops.append(dict(new, target="spy"))
+        elif kind == "multi_late":
+            # a MultiProgress born hidden gets its members first and its (rate limited) terminal afterwards
+            cfg["mp"] = {"target": "hidden", "hz": 0, "align": "top"}
+            ops.append(dict(new, op="add", target="spy"))
+            ops.append({"op": "mp_set_target", "b": 0, "target": "spy_hz", "hz": R, "dt": 0})
         else:
             cfg["mp"] = {"target": "spy_hz", "hz": R, "align": "top"}
             ops.append(dict(new, op="add", target="spy"))
@@ -636,6 +641,7 @@ def c05(pid, tier, seed):
     plan.append(("multi_churn_R20", lambda: [hist(s, 20, "multi", False) for s in churn20]))
     plan.append(("multi_churn_R1", lambda: [hist(s, 1, "multi", False) for s in churn20[::4]]))
     # a bar that is complete but not finished (position >= length from the start) is throttled like any other
+    plan.append(("multi_late_R20", lambda: [hist(s, 20, "multi_late", False) for s in cover20[::6] + steady[:1]]))
     plan.append(("single_full_R20", lambda: [hist(s, 20, "single", False, length=0) for s in cover20[::4] + steady[:1]]))
     plan.append(("multi_full_R20", lambda: [hist(s, 20, "multi", False, length=0) for s in cover20[::6] + steady[:1]]))
     plan.append(("single_samepos_R20", lambda: [hist(s, 20, "single", False, samepos=True) for s in cover20[::4] + steady[:1]]))
@@ -645,7 +651,12 @@ def c05(pid, tier, seed):
     plan.append(("pty_R255", lambda: [hist(s, 255, "pty", False) for s in cover20[::6] + steady[:1]]))
     plan.append(("posgate", lambda: [hist(s, 1, "pos", False) for s in cover10 + (lifted10[::2] if q else lifted10) + steady]))
     # the histories of a family are built when its turn comes (all rates at once do not fit in memory)
+    only = os.environ.get("VERIF_FAMILIES")
     for name, mk in plan:
+        if only:
+            import re as _re
+            if not _re.search(only, name):
+                continue
         hs = mk()
         bad, st, total = vlib.replay_and_judge("%s_%s" % (pid, name), hs, "api", "Trace_Throttle", shards=8)
         nh += len(hs)
